@@ -1131,6 +1131,21 @@ class Interp:
             if (self.auto_private and f.id.startswith("_") and f.id not in frame and self.idx is not None and self.idx.has_cls(f.id) and len(self.idx.classes[f.id]) == 1
                     and "NamedTuple" not in self.idx.classes[f.id][0].bases and f.id not in self.handlers):
                 return self._new_private(self.idx.classes[f.id][0], self._pos_args(e, frame), {k.arg: self.eval(k.value, frame) for k in e.keywords if k.arg})
+            # `X = namedtuple("X", [...])` at module level: the functional form of the same thing
+            if f.id not in frame and self._fi_stack and self.idx is not None:
+                fn = _functional_nt(getattr(self.idx, "module_consts", {}).get((self._fi_stack[-1].file, f.id)))
+                if fn is not None:
+                    pos = self._pos_args(e, frame)
+                    kw = {k.arg: self.eval(k.value, frame) for k in e.keywords if k.arg}
+                    vals = []
+                    for i, n in enumerate(fn[1]):
+                        if i < len(pos):
+                            vals.append(pos[i])
+                        elif n in kw:
+                            vals.append(kw[n])
+                        else:
+                            raise Raised("TypeError")
+                    return NTV(_PseudoClass(fn[0]), fn[1], vals)
             # a NamedTuple class of the analysed source: its instances are concrete tuples with named fields
             if f.id not in frame and self.idx is not None and self.idx.has_cls(f.id) and len(self.idx.classes[f.id]) == 1 and "NamedTuple" in self.idx.classes[f.id][0].bases:
                 ci = self.idx.classes[f.id][0]
@@ -1642,6 +1657,28 @@ class NTV(tuple):
 
     def __repr__(self):
         return f"{self.ci.name}({', '.join(f'{k}={_show(v)}' for k, v in zip(self.fields, self))})"
+
+
+class _PseudoClass:
+    """stands in for the ClassInfo of a functional namedtuple (no methods of its own)"""
+
+    def __init__(self, name):
+        self.name, self.methods, self.properties = name, {}, {}
+
+
+def _functional_nt(node):
+    """(type name, field names) of a `namedtuple("T", ["a", "b"])` / `namedtuple("T", "a b")` call node, else None"""
+    if not (isinstance(node, ast.Call) and unparse(node.func) in ("namedtuple", "collections.namedtuple") and len(node.args) == 2 and isinstance(node.args[0], ast.Constant)):
+        return None
+    try:
+        fields = ast.literal_eval(node.args[1])
+    except (ValueError, SyntaxError):
+        return None
+    if isinstance(fields, str):
+        fields = fields.replace(",", " ").split()
+    if not (isinstance(fields, (list, tuple)) and all(isinstance(x, str) for x in fields)):
+        return None
+    return node.args[0].value, list(fields)
 
 
 def _nt_fields(ci):
